@@ -201,7 +201,7 @@ def explore(res, tier, seed, model_ok=True):
                 'granularity, and the two schedules of the window after a FAILED Close write; (b) for each family - close() against send_text/send_binary/send_ping/close() on other threads and against the event loop '
                 '(echo of a server Close, completion of our own close by the server\'s Close, auto-pong, auto-ping), 2-3 threads - EVERY maximal interleaving at '
                 'sync-step granularity up to the stated preemption bound, enumerated by the model driver and executed on the real code; (c) 300 (quick) / 3000 uniformly random sync-granularity schedules that also schedule threads waiting for the lock; (d) %d sampled '
-                'line-granularity schedules; (e) calls that start BEFORE the event loop is first advanced, racing with the loop thread\'s connect / request / reply (directed and random schedules, the request\'s own sendall in 1-4 chunks or failing; thread model started in `initPre` with loop call `.connect`; runs in which a send is attempted on the socket the loop has just shut down after a FAILED request write are judged by the oracle alone and counted).  Model and real code compared on the executed step log, chunks, results, flags.  Oracle: reference decoder on the '
+                'line-granularity schedules; (e) calls that start BEFORE the event loop is first advanced, racing with the loop thread\'s connect / request / reply (directed and random schedules, the request\'s own sendall in 1-4 chunks or failing; thread model started in `initPre` with loop call `.connect`; runs in which a send is attempted on the socket the loop has just shut down after a FAILED request write - TransportFail, nothing written, in the model as in the code - are compared like all others and counted).  Model and real code compared on the executed step log, chunks, results, flags.  Oracle: reference decoder on the '
                 'bytes written: <= 1 complete Close, nothing (not even a partial frame) after it, a send is on the wire iff it returned ok, losers raised a WebSocketError '
                 '(TransportFail exactly where the socket was made to fail), a close() that has returned leaves the websocket closing or closed.  '
                 'non-trivial = some thread was preempted; distinct by (programs, executed step sequence)') % (120 if quick else 1500)
